@@ -185,12 +185,21 @@ def cases_1d(draw, tier="quick"):
     if nan and data and draw(st.booleans()):
         data[draw(st.integers(0, len(data) - 1))] = float("nan")
     kind = draw(st.sampled_from(["list", "tuple", "iterator", "generator", "nested", "array2d", "array2d_fortran", "array2d_view", "pd_series", "pd_series", "pd_series", "pd_series_int",
-                                 "pd_series_Int64", "pd_series_Int64", "pl_series", "pl_series", "pl_series_int", "pl_frame1", "dask"]))
+                                 "pd_series_Int64", "pd_series_Int64", "pl_series", "pl_series", "pl_series_int", "pl_frame1", "dask", "array2d_fortran", "array2d_view"]))
     wk, ws = draw(gen.weights_for(len(data), kinds=("none", "int", "dyadic")))
     wcont = draw(st.sampled_from(["array", "array", "list", "pd_series", "pl_series"]))
     if wcont == "pl_series" and not kind.startswith("pl_"):
         wcont = "array"
-    return {"pairs": ps, "data": data, "kind": kind, "weights": ws, "wcontainer": wcont, "dropna": draw(st.sampled_from([True, True, False])),
+    dropna = draw(st.sampled_from([True, True, False]))
+    if kind in ("array2d_fortran", "array2d_view") and draw(st.booleans()):
+        # memory layout matters on the path that does not filter NaN: exercise it with weights
+        data = [0.0 if x != x else x for x in data]
+        mids = [p[0] + (p[1] - p[0]) / 2 for p in ps]
+        while len(data) < 4 or len(data) % 2:
+            data.append(mids[len(data) % len(mids)])
+        dropna = False
+        ws = [i % 7 + 1 for i in range(len(data))]  # non-uniform, so that a re-ordering of the values shows
+    return {"pairs": ps, "data": data, "kind": kind, "weights": ws, "wcontainer": wcont, "dropna": dropna,
             "name": draw(st.sampled_from([None, "x", "energy"])), "axis_name": draw(st.sampled_from([None, None, "given"])),
             "via": draw(st.sampled_from(["h1", "h1", "accessor"]))}
 
@@ -375,10 +384,18 @@ def check_conversions(case, ctx: Ctx):
             require(list(df["frequency"]) == list(np.asarray(h.frequencies)), "dataframe_frequency", "")
             require(np.allclose(np.asarray(df["error"], dtype=float), np.sqrt(np.asarray(h.errors2, dtype=float)), rtol=1e-6, atol=0), "dataframe_error", "")
             require([[float(i.left), float(i.right)] for i in df.index] == pairs, "dataframe_index", "")
+            from physt.compat.pandas import index_to_binning
+
+            b3 = ctx.call("index_to_binning(frame.index)", index_to_binning, df.index)
+            require(np.asarray(b3.bins, dtype=float).tolist() == pairs, "index_roundtrip", f"{np.asarray(b3.bins).tolist()} vs {pairs}")
         elif kind == "series":
             s = ctx.call("to_series", h.to_series)
             require(list(s) == list(np.asarray(h.frequencies)), "series_frequency", "")
             require([[float(i.left), float(i.right)] for i in s.index] == pairs and s.index.closed == "left", "series_index", "")
+            from physt.compat.pandas import index_to_binning
+
+            b3 = ctx.call("index_to_binning(series.index)", index_to_binning, s.index)
+            require(np.asarray(b3.bins, dtype=float).tolist() == pairs, "index_roundtrip", f"{np.asarray(b3.bins).tolist()} vs {pairs}")
         else:
             from physt.compat.pandas import binning_to_index, index_to_binning
 
@@ -448,7 +465,7 @@ def conversion_cases(draw, tier="quick"):
             g["grid"] = [float(draw(st.integers(0, 9))) for _ in range((n + 2) * (n2 + 2))]
         return {"kind": "geant", "geant": g}
     spec = draw(hgen.hist_spec(dims=(1,), dtypes=["int64", "float64", "int32", "float32"], max_bins=8, adaptive=False, rich_meta=False,
-                               forms=("numpy", "static", "pairs", "fixed", "edges")))
+                               forms=("numpy", "static", "pairs", "pairs", "static", "fixed", "edges"), gapped=draw(st.sampled_from([None, True]))))
     return {"kind": kind, "spec": spec}
 
 
@@ -508,6 +525,6 @@ SUBS = [
     Sub("containers_1d", lambda tier: cases_1d(tier), check_1d, quick=800, thorough=3000),
     Sub("containers_nd", lambda tier: cases_nd(tier), check_nd, quick=400, thorough=2500),
     Sub("refusals", lambda tier: refusal_cases(tier), check_refusals, quick=100, thorough=500),
-    Sub("conversions", lambda tier: conversion_cases(tier), check_conversions, quick=300, thorough=2000),
+    Sub("conversions", lambda tier: conversion_cases(tier), check_conversions, quick=500, thorough=2000),
     Sub("dask", lambda tier: dask_cases(tier), check_dask, quick=60, thorough=600),
 ]
